@@ -60,7 +60,7 @@ def scale(tier, quick, thorough):
     return thorough if tier == "thorough" else quick
 
 
-from gens import pure, wire, mtu, txring, rx, segs, vsock  # noqa: E402,F401  (registers generators / oracles)
+from gens import pure, wire, mtu, txring, rx, segs, vsock, vsock_props  # noqa: E402,F401  (registers generators / oracles)
 
 pure.register(sys.modules[__name__])
 wire.register(sys.modules[__name__])
@@ -69,3 +69,4 @@ txring.register(sys.modules[__name__])
 rx.register(sys.modules[__name__])
 segs.register(sys.modules[__name__])
 vsock.register(sys.modules[__name__])
+vsock_props.register(sys.modules[__name__])
